@@ -8,15 +8,18 @@ import (
 	"crypto/tls"
 	"crypto/x509"
 	"crypto/x509/pkix"
+	"errors"
 	"io"
 	"math/big"
 	"net"
 	"net/http"
 	"net/url"
+	"reflect"
 	"time"
 
 	"github.com/saucelabs/forwarder"
 	"github.com/saucelabs/forwarder/log"
+	"github.com/saucelabs/forwarder/utils/reflectx"
 )
 
 type proxyRig struct {
@@ -57,7 +60,61 @@ func selfSigned() (*tls.Config, *x509.CertPool, error) {
 
 // startProxy builds the real proxy (forwarder.NewHTTPProxy) once; routing per
 // request is decided from the scenario that owns the requested host.
-func startProxy(handler bool, timeouts bool) (*proxyRig, error) {
+// recRT wraps the proxy's transport (public injection point: the RoundTripper given to
+// NewHTTPProxy): the body of a 101 response — the stream the tunnel copier reads, which starts with
+// whatever net/http's transport had buffered behind the response head — is handed on through a
+// recording wrapper, so the copier's reads are observed instead of inferred.
+type recRT struct{ inner http.RoundTripper }
+
+func (r *recRT) RoundTrip(req *http.Request) (*http.Response, error) {
+	res, err := r.inner.RoundTrip(req)
+	if err != nil || res.StatusCode != http.StatusSwitchingProtocols {
+		return res, err
+	}
+	if rwc, ok := res.Body.(io.ReadWriteCloser); ok {
+		if sc := reg.get(req.URL.Host); sc != nil && sc.Gated {
+			res.Body = &recBody{inner: rwc, sc: sc}
+		}
+	}
+	return res, err
+}
+
+type closeWriter interface{ CloseWrite() error }
+
+type recBody struct {
+	inner io.ReadWriteCloser
+	sc    *scenario
+}
+
+func (b *recBody) Read(p []byte) (int, error) {
+	n, err := b.inner.Read(p)
+	if n > 0 {
+		b.sc.rec.log("UB", "R", n, p[:n])
+	}
+	if err != nil {
+		if errors.Is(err, io.EOF) {
+			b.sc.rec.log("UB", "Reof", 0, nil)
+		} else {
+			b.sc.rec.log("UB", "Rerr", 0, nil)
+		}
+	}
+	return n, err
+}
+func (b *recBody) Write(p []byte) (int, error) { return b.inner.Write(p) }
+func (b *recBody) Close() error                { return b.inner.Close() }
+
+// CloseWrite: the way the proxy itself finds it on net/http's body (close.go asCloseWriter)
+func (b *recBody) CloseWrite() error {
+	if cw, ok := b.inner.(closeWriter); ok {
+		return cw.CloseWrite()
+	}
+	if cw, ok := reflectx.LookupImpl[closeWriter](reflect.ValueOf(b.inner)); ok {
+		return cw.CloseWrite()
+	}
+	return errors.New("no CloseWrite")
+}
+
+func startProxy(handler bool, timeouts bool, bodyObs bool) (*proxyRig, error) {
 	srvTLS, pool, err := selfSigned()
 	if err != nil {
 		return nil, err
@@ -126,7 +183,11 @@ func startProxy(handler bool, timeouts bool) (*proxyRig, error) {
 		}
 		return res, c, nil
 	}
-	hp, err := forwarder.NewHTTPProxy(cfg, nil, nil, tr, log.NopLogger, nil)
+	var rt http.RoundTripper = tr
+	if bodyObs {
+		rt = &recRT{inner: tr}
+	}
+	hp, err := forwarder.NewHTTPProxy(cfg, nil, nil, rt, log.NopLogger, nil)
 	if err != nil {
 		return nil, err
 	}
